@@ -15,3 +15,4 @@ def run(ses):
     cacheunit.obligations(ses, "C10")
     cacheunit.options_obligations(ses, "C10")
     cache_e2e.histories(ses, "C10")
+    cache_e2e.partial_cache_sequences(ses, "C10")
